@@ -4,9 +4,15 @@ import (
 	"context"
 	"encoding/json"
 	"fmt"
+	"io"
 	"os"
+	"regexp"
 	"sort"
+	"strconv"
+	"sync"
 	"time"
+
+	log "github.com/sirupsen/logrus"
 
 	"github.com/siglens/siglens/pkg/ast/pipesearch"
 	"github.com/siglens/siglens/pkg/config"
@@ -27,6 +33,16 @@ type history struct {
 	Steps []step `json:"steps"`
 	Index string `json:"index"`
 	Desc  bool   `json:"timestamps_descending"` // later events carry EARLIER timestamps (late-arriving data)
+	// the filter query asked after every restart; with PQ it is also asked on the (empty, existing) index BEFORE the first
+	// event arrives, which makes it a persistent query: every flush then appends the block's match bits to
+	// <segkey>/pqmr/<pqid>.pqmr (after the .sfm), and after a restart the query is answered from that file
+	Filter string `json:"filter_query"`
+	PQ     bool   `json:"filter_is_persistent_query"`
+}
+
+// does the event satisfy the filter query (the queries used are `w=w<r>`)
+func filterMatches(h history, id int) bool {
+	return h.Filter == fmt.Sprintf("w=w%d", id%3)
 }
 
 type recovered struct {
@@ -41,6 +57,52 @@ type recovered struct {
 	Bounded   map[int][]int `json:"ids_by_time_bounded_query_per_flush_step"`
 	Again     []int    `json:"ids_after_second_restart"`
 	AgainErr  string   `json:"again_err"`
+	// the filter query (a persistent query when history.PQ) after restart / after more ingest / after the second restart
+	Filter      []int  `json:"filter_ids"`
+	FilterErr   string `json:"filter_err"`
+	FilterAfter []int  `json:"filter_ids_after_more_ingest"`
+	FilterAgain []int  `json:"filter_ids_after_second_restart"`
+	FilterPath  [2]int `json:"filter_segments_served_raw_pqs"` // from the server's own log line (-1 = none)
+}
+
+// logrus hook: how many segments of a query were raw-searched / answered from persistent-query results
+type pathHook struct {
+	mu sync.Mutex
+	m  map[uint64][2]int
+}
+
+var pathRe = regexp.MustCompile(`qid=(\d+), GetSortedQSRs: Received \d+ query segment requests\. (\d+) raw search (\d+) pqs`)
+
+func (h *pathHook) Levels() []log.Level { return []log.Level{log.InfoLevel} }
+func (h *pathHook) Fire(e *log.Entry) error {
+	if m := pathRe.FindStringSubmatch(e.Message); m != nil {
+		q, _ := strconv.ParseUint(m[1], 10, 64)
+		r, _ := strconv.Atoi(m[2])
+		p, _ := strconv.Atoi(m[3])
+		h.mu.Lock()
+		h.m[q] = [2]int{r, p}
+		h.mu.Unlock()
+	}
+	return nil
+}
+
+var paths = &pathHook{m: map[uint64][2]int{}}
+
+func filterQuery(h history) ([]int, error) {
+	r, err := runQuery(h.Index, h.Filter)
+	if err != nil {
+		return nil, err
+	}
+	ids := []int{}
+	for _, row := range r.Rows {
+		if id, ok := num(row["id"]); ok {
+			ids = append(ids, int(id))
+		} else {
+			ids = append(ids, -1)
+		}
+	}
+	sort.Ints(ids)
+	return ids, nil
 }
 
 func initSiglens(dir string) error {
@@ -184,6 +246,14 @@ func workerMain(args []string) {
 		if err := initSiglens(dir + "/data"); err != nil {
 			os.Exit(3)
 		}
+		if h.PQ {
+			// the index exists and the filter has been asked before any data arrives -> persistent query
+			e1 := vtable.AddVirtualTable(&h.Index, 0)
+			_, e2 := runQuery(h.Index, h.Filter)
+			if os.Getenv("C07_DUMP") != "" {
+				fmt.Fprintf(os.Stderr, "PQ registration: AddVirtualTable err=%v query err=%v\n", e1, e2)
+			}
+		}
 		marker(dir, "START")
 		next := 1
 		for i, st := range h.Steps {
@@ -226,6 +296,13 @@ func workerMain(args []string) {
 			}
 			if out.Again == nil {
 				out.Again = []int{}
+			}
+			if h.Filter != "" {
+				if f, err := filterQuery(h); err != nil {
+					out.AgainErr = "filter query: " + err.Error()
+				} else {
+					out.FilterAgain = f
+				}
 			}
 		}
 		ob, _ = json.Marshal(out)
@@ -280,6 +357,27 @@ func workerMain(args []string) {
 				}
 			}
 		}
+		if h.Filter != "" {
+			if h.PQ {
+				log.SetLevel(log.InfoLevel)
+				log.SetOutput(io.Discard)
+				log.AddHook(paths)
+			}
+			f, err := filterQuery(h)
+			out.Filter = f
+			if err != nil {
+				out.FilterErr = err.Error()
+			}
+			out.FilterPath = [2]int{-1, -1}
+			if h.PQ {
+				log.SetLevel(log.PanicLevel)
+				paths.mu.Lock()
+				if v, ok := paths.m[qid]; ok {
+					out.FilterPath = v
+				}
+				paths.mu.Unlock()
+			}
+		}
 		// time-bounded queries: the range of each flush step's own events
 		out.Bounded = map[int][]int{}
 		next := 1
@@ -313,6 +411,13 @@ func workerMain(args []string) {
 			out.After = ids2
 			if err != nil {
 				out.AfterErr = err.Error()
+			}
+			if h.Filter != "" && err == nil {
+				if f, err := filterQuery(h); err != nil {
+					out.AfterErr = "filter query: " + err.Error()
+				} else {
+					out.FilterAfter = f
+				}
 			}
 		}
 		write()
